@@ -508,3 +508,32 @@ func (s *Sched) ForgetInstance(inst *Instance) {
 		s.starting = nil
 	}
 }
+
+// FreeWriterLock runs the goroutine that holds the simulated writer lock until
+// it releases it (the root is about to run a write transaction itself, e.g.
+// to open another instance's database; ldb shares one global batch buffer, so
+// write transactions of different instances must not overlap either).
+func (s *Sched) FreeWriterLock() {
+	for i := 0; i < 100000; i++ {
+		s.mu.Lock()
+		lh := s.lockHolder
+		s.mu.Unlock()
+		if lh == nil || s.CrashRequested {
+			return
+		}
+		var pick *Action
+		en := s.Enabled()
+		for k := range en {
+			if en[k].G == lh {
+				pick = &en[k]
+			}
+		}
+		if pick == nil {
+			if !s.StepFair() {
+				return
+			}
+			continue
+		}
+		s.Do(*pick)
+	}
+}
